@@ -178,7 +178,8 @@ func parseDuration(param lokiapi.PrometheusDuration) (time.Duration, error) {
 	if !strings.ContainsAny(value, "smhdwy") {
 		f, err := strconv.ParseFloat(value, 64)
 		if err == nil {
-			d := time.Duration(f * float64(time.Second))
+			// Round: product of 4.1 and 1e9 is a bit less than 4100000000.
+			d := time.Duration(math.Round(f * float64(time.Second)))
 			if d <= 0 {
 				return 0, errors.Errorf("duration %q must be positive", value)
 			}
